@@ -51,15 +51,64 @@ pub fn mont_of(a: &BigUint, m: Md) -> BigUint {
     (a << 256) % m.p()
 }
 
+/// (-p^-1) mod 2^256
+pub fn neg_inv_p(m: Md) -> &'static BigUint {
+    use std::sync::OnceLock;
+    static NQ: OnceLock<BigUint> = OnceLock::new();
+    static NR: OnceLock<BigUint> = OnceLock::new();
+    let cell = match m {
+        Md::Q => &NQ,
+        Md::R => &NR,
+    };
+    cell.get_or_init(|| {
+        let p = m.p();
+        let r = &zp::c().two256;
+        // Newton: x <- x (2 - p x) mod 2^256 doubles the number of correct low bits
+        let mut x = BigUint::one();
+        for _ in 0..9 {
+            let px = (p * &x) % r;
+            let two_minus = (r + 2u32 - px) % r;
+            x = (x * two_minus) % r;
+        }
+        assert!(((p * &x) % r).is_one());
+        (r - x) % r
+    })
+}
+
+/// Model of an (interleaved) Montgomery sum of products on *stored* operands:
+/// u = (sum a_i b_i + m p) / 2^256, the value before the final conditional subtraction(s).
+pub fn mont_pre_sum(terms: &[(BigUint, BigUint)], m: Md) -> BigUint {
+    let p = m.p();
+    let r = &zp::c().two256;
+    let mut t = BigUint::zero();
+    for (a, b) in terms {
+        t += a * b;
+    }
+    let mm = ((&t % r) * neg_inv_p(m)) % r;
+    (t + mm * p) >> 256
+}
+
 pub struct Felt {
     pub v: BigUint,
     pub class: &'static str,
 }
 
+pub const FELT_W: [u32; 7] = [3, 2, 4, 4, 2, 5, 2];
+
 /// canonical value < p, weighted towards canonical-side boundaries and stored-limb boundary patterns
 pub fn felt(s: &mut Src, m: Md) -> Felt {
     let p = m.p();
-    match s.weighted(&[3, 2, 4, 4, 2, 5]) {
+    match s.weighted(&FELT_W) {
+        6 => {
+            // top-heavy stored value: stored = p - 1 - d with d small / 64-bit / 128-bit (drives Montgomery carries)
+            let d = match s.choose(3) {
+                0 => BigUint::from(s.choose(17) as u32),
+                1 => BigUint::from(s.u64()),
+                _ => BigUint::from(s.u128()),
+            };
+            let x = p - 1u32 - d;
+            Felt { v: (x * m.rinv()) % p, class: "limb-mont-top" }
+        }
         0 => {
             // canonical boundary table
             let two256 = &zp::c().two256;
